@@ -17,7 +17,8 @@
   What is abstracted (inputs of the model rather than computed): the script verdict of a transaction
   (`scriptOk`, an oracle Bool), serialized sizes (`nws`, `size`), wall-clock (expiry receives the expired
   set; the fee floor in force is an argument), Footprint/SysSize byte accounting (eviction receives the
-  victims and validates them), CPFP fee packages (pkgs.go: not modelled; see Props/C12 for what is stated).
+  victims and validates them), the membership of the CPFP fee packages (pkgs.go: observed and validated; the merge
+  of GetSortedMempoolRBF itself is modelled, see `mergeRBF`).
   Go panics / os.Exit are the sticky `panicked` flag.
 -/
 namespace GocoinV.Mempool
@@ -709,6 +710,61 @@ def buildSorted (K : Keys) (s : State) : State :=
 /-- GetSortedMempool -/
 def getSorted (K : Keys) (s : State) : List Nat :=
   if s.sortDirty then sortedSlow K s else s.sorted
+
+/-! ### CPFP fee packages (pkgs.go): the listing of GetSortedMempoolRBF
+
+  The membership of FeePackages (GetItWithAllChildren at creation, addToPackages / delFromPackages afterwards,
+  time-based suspension) is not recomputed by the model: the packages are an observed input (like the eviction
+  victims), validated by `pkgOK`, and the merge of the sorted list with them is modelled statement by statement. -/
+
+structure Pkg where
+  txs : List Nat        -- OneTxsPackage.Txs as BIDX, top parent first
+  fee : Nat
+  weight : Nat
+deriving Repr, Inhabited
+
+/-- anyIn -/
+def Pkg.anyIn (pk : Pkg) (res : List Nat) : Bool := pk.txs.any fun b => res.contains b
+
+/-- the inner loop of GetSortedMempoolRBF at list element `t`: consume the packages that beat `t` -/
+def takePkgs (t : T2S) : List Pkg → List Nat → List Pkg × List Nat
+  | [], res => ([], res)
+  | pk :: r, res =>
+    if pk.fee * t.tx.weight > t.fee * pk.weight then
+      if pk.anyIn res then takePkgs t r res else takePkgs t r (res ++ pk.txs)
+    else (pk :: r, res)
+
+/-- GetSortedMempoolRBF: walk the sorted list `l`, merging in the (sorted) FeePackages `pks` -/
+def mergeRBF (s : State) : List Nat → List Pkg → List Nat → List Nat
+  | [], _, res => res
+  | b :: rest, pks, res =>
+    match s.pool.get? b with
+    | none => mergeRBF s rest pks (if res.contains b then res else res ++ [b])
+    | some t =>
+      let r := takePkgs t pks res
+      mergeRBF s rest r.1 (if r.2.contains b then r.2 else r.2 ++ [b])
+
+/-- every element is pooled and each of its flagged parents stands before it (or in `seen`) -/
+def pfKeys (K : Keys) (s : State) : List Nat → List Nat → Bool
+  | _, [] => true
+  | seen, b :: r =>
+    (match s.pool.get? b with
+     | none => false
+     | some t => (memParents K t).all fun p => seen.contains p) && pfKeys K s (b :: seen) r
+
+def nodupKeys : List Nat → Bool
+  | [] => true
+  | b :: r => !r.contains b && nodupKeys r
+
+/-- what the merge relies on in a package: at least two members, no duplicates, all pooled, closed under flagged
+    parents with parents first, Fee and Weight the sums over the members -/
+def pkgOK (K : Keys) (s : State) (pk : Pkg) : Bool :=
+  decide (pk.txs.length ≥ 2) && nodupKeys pk.txs && pfKeys K s [] pk.txs &&
+  decide (pk.fee = (pk.txs.filterMap s.pool.get?).foldl (fun n t => n + t.fee) 0) &&
+  decide (pk.weight = (pk.txs.filterMap s.pool.get?).foldl (fun n t => n + t.tx.weight) 0)
+
+/-- GetSortedMempoolRBF (after buildListAndPackages) -/
+def sortedRBF (K : Keys) (s : State) (pks : List Pkg) : List Nat := mergeRBF s (getSorted K s) pks []
 
 /-! ### save + load (disk.go) -/
 
